@@ -44,9 +44,10 @@ Gen(d, L) ==
        \o Map(inl, LAMBDA x : [t |-> WhileLoop(L + 1, x.t), c |-> "while(" \o x.c \o ")"])
        \o Cross(<<0, 1, 2, 3, 4, 5, 6, 7>>, inl, LAMBDA v, x : [t |-> ForLoop(L + 1, v, x.t), c |-> "for" \o IntStr(v) \o "(" \o x.c \o ")"])
        \* loops whose condition is a literal of each truthiness kind (a truthy one is left by break)
-       \o Map(SetToSeq(CondsOut), LAMBDA cd : [t |-> SWhile(cd[2], SBlock(<<Tp, SBreak>>)), c |-> "while-lit_" \o cd[1]])
-       \o Map(SetToSeq(CondsOut), LAMBDA cd : [t |-> SFor(None, cd[2], None, SBlock(<<Tp, SBreak>>)), c |-> "for-lit_" \o cd[1]])
-       \o Map(SetToSeq(CondsOut), LAMBDA cd : [t |-> SFor(SVar(Cnt(L + 1), Lit(N(0))), cd[2], Asg(Cnt(L + 1), Bin("+", Id(Cnt(L + 1)), Lit(N(1)))), SBlock(<<Tp, SIf(Bin(">=", Id(Cnt(L + 1)), Lit(N(1))), SBreak, None)>>)), c |-> "forfull-lit_" \o cd[1]])
+       \o (IF L > 0 THEN <<>> ELSE
+          Map(SetToSeq(CondsOut), LAMBDA cd : [t |-> SWhile(cd[2], SBlock(<<Tp, SBreak>>)), c |-> "while-lit_" \o cd[1]])
+          \o Map(SetToSeq(CondsOut), LAMBDA cd : [t |-> SFor(None, cd[2], None, SBlock(<<Tp, SBreak>>)), c |-> "for-lit_" \o cd[1]])
+          \o Map(SetToSeq(CondsOut), LAMBDA cd : [t |-> SFor(SVar(Cnt(L + 1), Lit(N(0))), cd[2], Asg(Cnt(L + 1), Bin("+", Id(Cnt(L + 1)), Lit(N(1)))), SBlock(<<Tp, SIf(Bin(">=", Id(Cnt(L + 1)), Lit(N(1))), SBreak, None)>>)), c |-> "forfull-lit_" \o cd[1]]))
        \o Map(sub, LAMBDA x : [t |-> SBlock(<<x.t, Tp>>), c |-> "{" \o x.c \o ";T}"])
        \o Map(sub, LAMBDA x : [t |-> SBlock(<<Tp, x.t>>), c |-> "{T;" \o x.c \o "}"])
        \o (IF L = 0 THEN <<>> ELSE     \* a jump of THIS loop executed after an inner construct has finished
